@@ -7,7 +7,7 @@ PROP = dict(
     prelude="Require Import FV.C15.Model.\nFrom Coq Require Import List Arith ZArith Bool.\nImport ListNotations.",
     harness_args=lambda tier, seed: ["--seed", str(seed), "--n", str(N[tier])],
     shard=60,
-    rule="the real fontc CLI (rebuilt from /repo on every run) is run as a subprocess under ulimits (6 CPU-s, 4 GB, 60 s wall) on: "
+    rule="the real fontc CLI (rebuilt from /repo on every run) is run as a subprocess under ulimits (6 CPU-s, 4 GB, 300 s wall) on: "
          "(D) a fixed corpus: 15 component graphs (2-cycle, self-loop, 3-cycle, mixed / non-export cycle members, zero and non-zero "
          "net translation, flatten / decompose / prefer-simple flags, missing component), acyclic component chains of 300 / 1500 glyphs (recursion depth), 8 text mutants of real .glyphs sources with component cycles, 3 FEA include graphs (self include, 2-cycle, chain of 60) and 6 inputs known to crash the parsers (20000-deep nesting in .glyphs / designspace <lib> / UFO plist; non-numeric unicode and node strings in .glyphs); "
          "(A, 55%) random UFO component graphs of 3..6 glyphs (0..2 contours, 0..2 translated components, 80% exported) with one "
@@ -21,7 +21,7 @@ PROP = dict(
          "Predicate on every run: exit 0 with a parseable font, or a non-zero exit other than 101 with no font file; never a "
          "signal, CPU/wall limit, or uncaught panic. A graph case is non-trivial when it has a component; distinct = distinct "
          "store+flags / node list / base+mutation list. Cases that are predicted to hang on the unrepaired tree are capped "
-         "(30 quick / 300 thorough) to bound the run time.",
+         "(24 quick / 300 thorough) to bound the run time.",
     trusted_base=["Coq 8.16.1 kernel (coqc, vm_compute for case evaluation)",
                   "hand-written model FV.C15.Model (component-graph walks of fontir::glyph, fontbe::glyphs, "
                   "fontbe::metrics_and_limits, fontdrasil::util) tied to the fontc CLI and to "
@@ -35,7 +35,7 @@ PROP = dict(
                  "implementation being killed by a signal (stack overflow / abort) or hitting the CPU / wall-clock limit; the model "
                  "does not tell stack overflow from livelock",
                  "the real stack limits (8 MB main thread, 2 MB rayon workers) and the ulimit values (6 CPU-s, 4 GB address space, "
-                 "60 s wall) are not modelled; a compile needing more than 6 CPU-s would be reported as a hang",
+                 "300 s wall) are not modelled; a compile needing more than 6 CPU-s would be reported as a hang",
                  "the malformed-source stream (mutated UFO / designspace / .glyphs trees, token soup, nesting bombs) is checked "
                  "against the property predicate only; no model of the parsers exists",
                  "propagate-anchors runs are compared with the model under default flags (that walk is guarded by a visited set)",
